@@ -96,7 +96,7 @@ func selfTestSelect() error {
 	return nil
 }
 
-var c12Names = []string{"a", "b", "foo", "bar", "k0", "é", "键", "", "a b", "a.b", "x[0]", "with-dash", "$d", "_u", "UP"}
+var c12Names = []string{"a", "b", "foo", "bar", "k0", "é", "键", "", "a b", "a.b", "x[0]", "with-dash", "$d", "_u", "UP", "0", "-1", "1", "null", "a?"}
 
 func c12Data(r *rand.Rand, depth int) ref.V {
 	switch k := r.IntN(12); {
@@ -121,7 +121,7 @@ func c12Data(r *rand.Rand, depth int) ref.V {
 	case k == 7:
 		return ref.Bytes(gen.Bytes(r, r.IntN(6)))
 	case k == 8:
-		return ref.Str(gen.Pick(r, []string{"", "a", "héllo", "日本語テキスト", "abcdef", "ab",
+		return ref.Str(gen.Pick(r, []string{"", "a", "héllo", "日本語テキスト", "abcdef", "ab", "a😀b👍🏽c", "e\u0301e\u0301x", "😀", "\U0001F468\u200d\U0001F469\u200d\U0001F467",
 			"漢字かな交じり文のとても長い文字列、三十二文字を超える長さにするための追加のテキストです。", "ßüöä-" + strings.Repeat("é", 70), strings.Repeat("a", 40)}))
 	case k == 9:
 		return ref.Int(gen.Int(r))
@@ -414,10 +414,69 @@ func failShape(s ref.Sel, d ref.V) string {
 	return "resolves/last=" + s[len(s)-1].Kind.String()
 }
 
+// c12Long: selectors of 20..100 segments walking a deeply nested value (alternating maps and
+// lists), plain and with an optional mark on every segment, correct and with one segment
+// that fails somewhere along the way.
+func c12Long(w *mon.W) {
+	r := w.Rng
+	for it := 0; it < w.Share(w.Pick(60, 1200)); it++ {
+		n := gen.Pick(r, []int{20, 33, 64, 100})
+		var s ref.Sel
+		leaf := ref.List(ref.Int(1), ref.Str("日本語"), ref.Null())
+		d := leaf
+		kinds := make([]int, n)
+		for i := range kinds {
+			kinds[i] = r.IntN(3)
+		}
+		for i := n - 1; i >= 0; i-- {
+			switch kinds[i] {
+			case 0:
+				d = ref.Map(ref.E("k", d), ref.E("z", ref.Null()))
+			case 1:
+				d = ref.List(ref.Int(0), d)
+			default:
+				d = ref.Map(ref.E("only", d))
+			}
+		}
+		allOpt := it%3 == 1
+		for i := 0; i < n; i++ {
+			var g ref.Seg
+			switch kinds[i] {
+			case 0:
+				g = ref.Seg{Kind: ref.SField, Name: "k", Quoted: r.IntN(4) == 0}
+			case 1:
+				g = ref.Seg{Kind: ref.SIndex, Idx: gen.Pick(r, []int64{1, -1})}
+			default:
+				g = ref.Seg{Kind: ref.SIter}
+				// the iterator turns {"only": x} into [x]; step into it
+				s = append(s, g)
+				g = ref.Seg{Kind: ref.SIndex, Idx: 0}
+			}
+			g.Opt = allOpt && g.Kind != ref.SIter
+			s = append(s, g)
+		}
+		if it%3 == 2 {
+			// one failing segment somewhere
+			k := r.IntN(len(s))
+			switch s[k].Kind {
+			case ref.SField:
+				s[k].Name = "missing"
+			case ref.SIndex:
+				s[k].Idx = 7
+			}
+			s[k].Opt = r.IntN(2) == 0
+		}
+		s = append(s, ref.Seg{Kind: ref.SSlice, Lo: ref.I64(-2)})
+		w.Cover("long-selectors")
+		c12Case(w, s, d)
+	}
+}
+
 func runC12(w *mon.W) {
 	if purityGate(w, c12Purity) {
 		return
 	}
+	c12Long(w)
 	c12Reuse(w)
 	r := w.Rng
 	// exhaustive slice table
